@@ -42,6 +42,9 @@ func runSSO(c SSOCase) (*ssoRun, error) {
 	if c.LookupFault != "" {
 		spec.Faults = append(append([]world.Fault(nil), spec.Faults...), world.Fault{Op: "GetEntityByID", Occurrence: 0, Kind: c.LookupFault})
 	}
+	if c.KeyFault != "" {
+		spec.Faults = append(append([]world.Fault(nil), spec.Faults...), world.Fault{Op: "GetResponseSigningKey", Occurrence: 0, Kind: c.KeyFault})
+	}
 	if c.Noise {
 		spec = withNoise(spec)
 	}
